@@ -1,6 +1,6 @@
 import Drv.Util
 import Drv.LinAlg
-import BobEM.Model.FA
+import BobEM.Model.FATrain
 open Lean BobEM.FA Drv
 
 namespace Drv
@@ -40,4 +40,33 @@ def opFaScore (j : Json) : Json :=
   let xh : Fin rU → Float := f1 (Array.ofFn (estimateX M sts))
   let M' := M
   obj [("x", o1 xh), ("ux", o2 (apply M'.U xh)), ("score", oF (score M y z sts 2.220446049250313e-16))]
+end Drv
+
+namespace Drv
+open BobEM.FA in
+def rdClasses (j : Json) (C D : Nat) : List (List (St C D Float)) := (rdA j).toList.map fun c => rdSts c C D
+open BobEM.FA in
+def oAcc {C D r : Nat} (a : Acc C D r Float) : Json := obj [("a1", o3 a.a1), ("a2", o3 a.a2)]
+
+/-- fa_train: accumulators of the first V / U / D / ISV E-step over all classes, and the result of
+`fit` with `iters` iterations per phase -/
+def opFaTrain (j : Json) : Json :=
+  open BobEM.FA in
+  let C := rdN (getJ j "C"); let D := rdN (getJ j "D"); let rU := rdN (getJ j "rU"); let rV := rdN (getJ j "rV")
+  let M := materialize (rdFAModel j C D rU rV)
+  let classes := rdClasses (getJ j "classes") C D
+  let k := rdN (getJ j "iters")
+  if rdB (getJ j "jfa") then
+    let accV := Acc.sum (classes.map (eStepV M))
+    let ys := finalizeV M classes
+    let accU := Acc.sum ((classes.zip ys).map fun (sts, y) => eStepU M sts y)
+    let xss := finalizeU M classes ys
+    let accD := AccD.sum (((classes.zip xss).zip ys).map fun ((sts, xs), y) => eStepD M sts xs y)
+    let Mf := jfaFit M classes k
+    obj [("accV", oAcc accV), ("accU", oAcc accU), ("accD", obj [("a1", o2 accD.a1), ("a2", o2 accD.a2)]),
+         ("ys", Json.arr (ys.toArray.map o1)), ("U", o3 Mf.U), ("V", o3 Mf.V), ("Dd", o2 Mf.Dd)]
+  else
+    let accU := Acc.sum (classes.map (eStepIsv M))
+    let Mf := isvFit M classes k
+    obj [("accU", oAcc accU), ("U", o3 Mf.U), ("V", o3 Mf.V), ("Dd", o2 Mf.Dd)]
 end Drv
